@@ -1,0 +1,23 @@
+//go:build verif
+
+package suffix
+
+// Machine-checked contracts (comment-only; compiled to nothing). Checked by /verif/bin/stfsvc.
+
+//@ define sfxC(c string) string = ite(c == "gzip" || c == "parallelgzip", ".gz", ite(c == "lz4", ".lz4", ite(c == "zstandard", ".zst", ite(c == "brotli", ".br", ite(c == "bzip2" || c == "parallelbzip2", ".bz2", "")))))
+//@ define sfxE(e string) string = ite(e == "age", ".age", ite(e == "pgp", ".pgp", ""))
+//@ define knownC(c string) bool = c == "" || c == "gzip" || c == "parallelgzip" || c == "lz4" || c == "zstandard" || c == "brotli" || c == "bzip2" || c == "parallelbzip2"
+//@ define knownE(e string) bool = e == "" || e == "age" || e == "pgp"
+
+//@ property C03
+//@ lemma [suffix-inverse] forall n string, c string, e string :: knownC(c) && knownE(e) ==> trimSuffix(trimSuffix(n + sfxC(c) + sfxE(e), sfxE(e)), sfxC(c)) == n
+
+//@ func AddSuffix
+//@   property C03
+//@   ensures [adds-both] knownC(compressionFormat) && knownE(encryptionFormat) ==> result1 == nil && result0 == name + sfxC(compressionFormat) + sfxE(encryptionFormat)
+//@   ensures [unknown-rejected] !(knownC(compressionFormat) && knownE(encryptionFormat)) ==> result1 != nil
+
+//@ func RemoveSuffix
+//@   property C03
+//@   ensures [strips-both] knownC(compressionFormat) && knownE(encryptionFormat) ==> result1 == nil && result0 == trimSuffix(trimSuffix(name, sfxE(encryptionFormat)), sfxC(compressionFormat))
+//@   ensures [unknown-rejected] !(knownC(compressionFormat) && knownE(encryptionFormat)) ==> result1 != nil
